@@ -91,6 +91,9 @@ def decide(pid, tier, seed, reports, known, wall, write_replay, verbose=False):
                 if ob['verdict'] == 'refuted' and rp.get('outcome') == 'fail':
                     violation(key, f"{fn}: {ob['name']} refuted; real function fails on {rp.get('inputs')}: {rp.get('failed')}", payload)
                     continue
+                if ob['verdict'] == 'undecided' and rp.get('outcome') == 'fail':
+                    violation(key, f"{fn}: {ob['name']} left open by the solver ({ob.get('reason')}); the contract's witness inputs fail on the real function: {rp.get('inputs')}: {rp.get('failed')}", payload)
+                    continue
                 st = r.get('standin')
                 if st and st.get('failures'):
                     f0 = st['failures'][0]
